@@ -42,6 +42,15 @@ type stepX struct {
 func (w *World) step(host string, pre Cookie, cookieVal string, q Req, a Ans, r *rand.Rand) (Out, *Concrete, stepX) {
 	method, target, hdr := concreteReq(q, r)
 	sc := script(a, r)
+	if w.Hang {
+		// "no answer" concretised as an authenticator that accepts the request and never answers
+		for k, v := range sc {
+			if v.Class == "closed" {
+				v.Class = "hang"
+				sc[k] = v
+			}
+		}
+	}
 	w.FA.Script(sc)
 	for _, b := range w.Backs {
 		b.Reset()
